@@ -25,6 +25,10 @@ fn main() {
         match prop {
             "C01" | "C03" | "C07" => vcore::ck_engine::replay(prop, path),
             "C08" => vcore::ck_crash::replay(path),
+            "C11" => vcore::ck_backend::replay_backend(&vcore::ck_backend::MockBackend, path)
+                .unwrap_or_else(|| vcore::Report { property: "C11".into(), ..Default::default() }),
+            "C15" => vcore::ck_intern::replay(path),
+            "C16" => vcore::ck_lfu::replay(path),
             "C05" => vcore::ck_cancel::replay(path),
             "C06" => vcore::ck_cycle::replay(path),
             "C04" => vcore::conc::replay("C04", path),
@@ -45,6 +49,9 @@ fn main() {
         match prop {
             "C01" | "C03" | "C07" => vcore::ck_engine::check(prop, tier),
             "C08" => vcore::ck_crash::check(tier),
+            "C11" => vcore::ck_backend::check_mock(tier),
+            "C15" => vcore::ck_intern::check(tier),
+            "C16" => vcore::ck_lfu::check(tier),
             "C05" => vcore::ck_cancel::check(tier),
             "C06" => vcore::ck_cycle::check(tier),
             "C04" => vcore::conc::check("C04", tier),
